@@ -133,6 +133,9 @@ pub struct Exec {
     pub max_snaps: usize,
     /// virtual clock offset (C19)
     pub clock_secs: u64,
+    /// model states an interrupted multi-step op may legitimately leave behind (C05): set by the
+    /// last op, e.g. ingestion = flush of the memtables, then publication of the batch
+    pub mid_models: Vec<Model>,
 }
 
 pub fn resolve_bound(keys: &[Key], b: &BoundSpec) -> Bound<Key> {
@@ -260,6 +263,7 @@ impl Exec {
             reopen_count: 0,
             max_snaps: 6,
             clock_secs: 0,
+            mid_models: vec![],
         }
     }
 
@@ -568,6 +572,7 @@ impl Exec {
 
     pub fn apply(&mut self, op: &Op) -> R<()> {
         self.op_no += 1;
+        self.mid_models.clear();
         match op {
             Op::Insert { k, len } => self.single_write(*k, WKind::Put(*len)),
             Op::Remove { k } => self.single_write(*k, WKind::Del),
@@ -915,6 +920,12 @@ impl Exec {
             r.map_err(|e| format!("ingestion write failed: {e:?}"))?;
         }
         let had_mem = self.model.has_active() || self.model.has_sealed();
+        if had_mem {
+            let mut mid = self.model.clone();
+            mid.rotate();
+            mid.flush_sealed();
+            self.mid_models.push(mid);
+        }
         let before = self.seqno.get();
         let r = ing.finish();
         let after = self.seqno.get();
